@@ -667,6 +667,9 @@ class Interp:
         if k.kind == "tuple" and k.items is not None and len(k.items) == 2:
             a, b = k.items
             return ("partials", self._tm(a), self._tm(b))
+        if role == "partials":
+            # partials[key] with a key that is not a resolved pair: both names unknown
+            return ("partials", "?", "?")
         t = self._tm(k)
         return ({"inputs": "in", "outputs": "out", "residuals": "res", "partials": "partials", "d_inputs": "d_in", "d_outputs": "d_out", "d_residuals": "d_res", "discrete_inputs": "din", "discrete_outputs": "dout"}[role], t)
 
@@ -1231,6 +1234,16 @@ class Interp:
             if self.cls is not None and n.attr in self.cls.methods:
                 return Val("func", extra=self.cls.methods[n.attr], cfg=True, cx="self." + n.attr)
             if self.cls is not None and n.attr in self.cls.class_attrs:
+                cst = self.cls.class_attrs[n.attr]
+                if isinstance(cst.value, (ast.Tuple, ast.Constant)):
+                    # an immutable class-level constant (tuple of names, number, string): its value
+                    try:
+                        ast.literal_eval(cst.value)
+                        v_ = self.eval(cst.value, st)
+                        self.emit("attr_read", n, st, attr=n.attr, val=v_, classattr=True)
+                        return v_
+                    except (ValueError, SyntaxError):
+                        pass
                 self.emit("attr_read", n, st, attr=n.attr, val=None, classattr=True)
                 return Val("unknown", cfg=True, cx="cls." + n.attr, obj=("classattr", self.cls.name, n.attr), view="whole")
             self.emit("attr_read", n, st, attr=n.attr, val=None)
@@ -1584,6 +1597,38 @@ class Interp:
         saved = dict(st.env)
         dep = frozenset()
         cfg = True
+        # comprehension over literal sequences without conditions: evaluate it exactly (<= 24 elements)
+        if isinstance(n, ast.ListComp) and all(not g.ifs and not g.is_async for g in n.generators):
+            import itertools
+
+            seqs = []
+            ok = True
+            for g in n.generators:
+                try:
+                    itv = self.eval(g.iter, st)
+                except Exception:
+                    ok = False
+                    break
+                if itv.kind in ("list", "tuple") and itv.items is not None and itv.obj is None and 0 < len(itv.items) <= 12:
+                    seqs.append(list(itv.items))
+                else:
+                    ok = False
+                    break
+            st.env = dict(saved)
+            if ok:
+                total = 1
+                for q in seqs:
+                    total *= len(q)
+                if total <= 24:
+                    items = []
+                    for combo in itertools.product(*seqs):
+                        for g, v_ in zip(n.generators, combo):
+                            self.assign(g.target, v_, st, n, "=")
+                        items.append(self.eval(n.elt, st))
+                    st.env = saved
+                    d_ = frozenset().union(*[x.dep for x in items]) if items else frozenset()
+                    return Val("list", items=items, dep=d_, cfg=all(x.cfg for x in items))
+            st.env = dict(saved)
         for g in n.generators:
             it = self.eval(g.iter, st)
             dep |= it.dep
